@@ -128,7 +128,9 @@ class GenericNonMultiplicativeRegistry(
         # registered with its prefixed version.
         # TODO: Might be better to register them.
         names = self.parse_unit_name(unit_name)
-        assert len(names) == 1
+        if not names:
+            raise UndefinedUnitError(unit_name)
+        # like get_name, take the first reading when a name has several
         _, base_name, _ = names[0]
         try:
             return self._units[base_name].is_multiplicative
